@@ -252,9 +252,10 @@ func init() {
 		r.Explore(c03BytesProfile(r.Tier))
 	}
 	Registry["C04"] = func(r *Run) {
-		r.Rule = "every sequence of <=depth ops writing 4 adversarially named buckets ('', 'a', 'ab', 'b' with keys 'b','bc','c': coinciding bucket+key concatenations) for KV, list, set and sorted set; oracle 1: a write to bucket A leaves all reads of other buckets and other structures unchanged (observation before vs after the op); oracle 2: per-bucket reference models"
+		r.Rule = "every sequence of <=depth ops writing 4 adversarially named buckets ('', 'a', 'ab', 'b' with keys 'b','bc','c': coinciding bucket+key concatenations) for KV, list, set and sorted set; oracle 1: a write to bucket A leaves all reads of other buckets and other structures unchanged (observation before vs after the op); oracle 2: per-bucket reference models; plus ambiguity families: the SAME value / member / element under (bucket,key) pairs with coinciding concatenations in every structure, rotated, merged, reopened, removed from one side, merged and reopened again, judged against the model after every step"
 		r.Assume = []string{"list/set/zset ops only in HintKeyValAndRAMIdxMode (the mode that supports them)"}
 		r.Required = []string{"reopen", "noninterference-checked"}
 		r.Explore(c04Profile(r.Tier))
+		runC04Amb(r)
 	}
 }
